@@ -96,14 +96,16 @@ class FakeConnection(Connection):
         return t
 
     def close(self):
-        # same contract as the asyncore/libev reactors' close()
+        # same contract as the real reactors' close(); which error_all_* methods it calls is
+        # read from the reactors' current source (reactor_close_contract)
         with self.lock:
             if self.is_closed:
                 return
             self.is_closed = True
         self.close_calls += 1
         if not self.is_defunct:
-            self.error_all_requests(ConnectionShutdown("Connection to %s was closed" % self.endpoint))
+            for name in reactor_close_contract():
+                getattr(self, name)(ConnectionShutdown("Connection to %s was closed" % self.endpoint))
             self.connected_event.set()
 
     def push(self, data):
@@ -116,6 +118,35 @@ class FakeConnection(Connection):
 
     def __repr__(self):
         return '<FakeConnection #%d>' % self.idx
+
+
+_CONTRACT = None
+REACTOR_FILES = ('asyncorereactor', 'libevreactor', 'geventreactor', 'eventletreactor', 'twistedreactor', 'asyncioreactor')
+
+
+def reactor_close_contract():
+    """the error_all_* methods that EVERY reactor's Connection.close() calls on a non-defunct
+    connection, in call order -- parsed from /repo/cassandra/io/*.py on every run"""
+    global _CONTRACT
+    if _CONTRACT is None:
+        import ast, os
+        import cassandra
+        base = os.path.join(os.path.dirname(cassandra.__file__), 'io')
+        per = []
+        for f in REACTOR_FILES:
+            tree = ast.parse(open(os.path.join(base, f + '.py')).read())
+            calls = None
+            for cls in [n for n in tree.body if isinstance(n, ast.ClassDef) and n.name.endswith('Connection')]:
+                for fn in cls.body:
+                    if isinstance(fn, (ast.FunctionDef, ast.AsyncFunctionDef)) and fn.name in ('close', '_close'):
+                        calls = (calls or []) + [c.func.attr for c in ast.walk(fn) if isinstance(c, ast.Call)
+                                 and isinstance(c.func, ast.Attribute) and isinstance(c.func.value, ast.Name)
+                                 and c.func.value.id == 'self' and c.func.attr.startswith('error_all_')]
+            if calls is not None:
+                per.append(calls)
+        common = [c for c in (per[0] if per else []) if all(c in p for p in per)]
+        _CONTRACT = common
+    return _CONTRACT
 
 
 def install_reactor():
